@@ -4,6 +4,7 @@
   and the Go memory model's DRF-SC guarantee are assumed, DESIGN §3).
   Property theorems only; helper lemmas live in CedarProofs/{LocksetLemmas,LocksetStream}.lean.
 -/
+import CedarGen.FactsCCB
 import CedarProofs.LocksetLemmas
 import CedarProofs.LocksetStream
 
@@ -202,5 +203,18 @@ example : (Lin.run (fun u => ⟨u % 2, .future⟩) {} [.store 0, .mapCmd 7 0, .i
 -- an established keyed stream exists, and a send really changes the send side
 example : Dir.Established (Dir.shared ((({} : Stream).setKey 1 ⟨5, []⟩))) := ⟨rfl, rfl, fun _ => rfl, rfl⟩
 example : (Dir.applySend (({} : Stream).setKey 1 ⟨5, []⟩) (.frame [1, 2] 1)).isOk = true := by decide
+
+/-- the stream-writing calls the CCB listener may contain: the registration message (sent before
+    the reader and the heartbeat of that registration exist) and the one inside `writeToBroker` -/
+def declaredBrokerWrites : List (String × String) :=
+  [("register", "WriteControlAd"), ("writeToBroker", "WriteControlAd")]
+
+/-- **broker_writers_serialised**: every write to a broker stream in ccb/listener.go (regenerated
+    table) happens either in `register`, before any other goroutine knows the stream, or inside
+    `writeToBroker`, which holds `writeMu` around it — so result writers and the heartbeat never
+    write to the one stream at once while the reader runs. -/
+theorem broker_writers_serialised :
+    CedarGen.FactsCCB.brokerWriteSites.all (fun s => declaredBrokerWrites.contains s) = true ∧
+    CedarGen.FactsCCB.writeToBrokerLocked = true := by decide
 
 end Cedar.C17
